@@ -399,8 +399,12 @@ MANIFEST_ENTRY = {
              'arguments and look-up index (= those of zernike_nm).  MODELLED AND COMPARED: every *_seq vs a Python loop over its scalar '
              'function for all 255 ascending subsets of {0..7} + random gapped lists to order 40 on coordinate shapes (), (5,), (3,4), '
              '(4,4), (len(ns),3), (2,3,4); vs the Lean sweep on Float and exactly on Rat; pair lists for Zernike / Zernike-der / 2D-Q / XY.  '
-             'NOT COVERED: non-ascending order lists (outside the property), the statement-level translation of every *_seq body '
-             '(the sweep theorem is about the hand model of the control flow; the tie to the code is the differential test).'),
+             'ALSO TRANSLATED statement by statement (running index, conditional row writes into np.empty rows, early returns, for loop) '
+             'and PROVED equal to ns.map of the translated single-order function for every non-empty strictly ascending list: the bodies of '
+             'jacobi_seq, hermite_He_seq, hermite_H_seq, hermite_He_der_seq, hermite_H_der_seq, laguerre_seq, dickson1_seq, dickson2_seq.  '
+             'NOT COVERED: non-ascending order lists (outside the property); jacobi_der_seq, Qbfs_seq, laguerre_der_seq, zernike_nm_seq, '
+             'Q2d_seq, xy_seq bodies are not translated statement by statement (hand model + differential test; for the Chebyshev, '
+             'Legendre, Qcon wrappers the translated facts are their parameters, numerators and broadcast shapes).'),
     'note': ('Trusted: Lean kernel + propext/Classical.choice/Quot.sound; tools/gen_c08.py symbolic shape reading of np.ones/np.squeeze/'
              'reshape/newaxis; NumPy broadcasting = its shape rule.'),
 }
